@@ -57,3 +57,66 @@ PROPS['R128'] = {'jobs': lambda tier, seed: r_jobs([128], tier, seed), 'validate
 PROPS['R64'] = {'jobs': lambda tier, seed: r_jobs([64], tier, seed), 'validate': False}
 PROPS['R192'] = {'jobs': lambda tier, seed: r_jobs([192], tier, seed), 'validate': False}
 PROPS['R256'] = {'jobs': lambda tier, seed: r_jobs([256], tier, seed), 'validate': False}
+
+
+# ---------------------------------------------------------------- C01
+CUT = {'cuts': 'reduce'}
+
+
+def c01_jobs(tier, seed):
+    import random
+    rng = random.Random(seed)
+    gaps = list(range(-74, 75))
+    if tier == 'quick':
+        keep = {0, 1, -1, 4, -4, 19, -19, 35, 36, -35, -36, 74, -74}
+        rest = [g for g in gaps if g not in keep]
+        keep.update(rng.sample(rest, 3))
+        gaps = sorted(keep)
+    jobs = []
+    for g in gaps:
+        for sub in (0, 1):
+            jobs.append(('vh_c01_gap', [g, sub], CUT))
+    for side in (1, -1):
+        for sub in (0, 1):
+            jobs.append(('vh_c01_far', [side, sub], CUT))
+    jobs.append(('vh_c01_default', [1000], {'cuts': 'add'}))
+    jobs += r_jobs([128, 192], tier, seed, sample=4)
+    return jobs
+
+
+PROPS['C01'] = {
+    'jobs': c01_jobs,
+    'must_reach': ['C01:rounded', 'C01:cancel', 'C01:zero+zero', 'C01:far', 'C01:default', 'R:finite', 'R:overflow', 'R:flush'],
+    'bounds': {
+        'quick': 'exponent gaps: a boundary set of 31 gaps in -74..74 plus 6 seeded ones, each for Add and Sub, plus both far regions |gap|>=75 (gap symbolic); per gap all coefficients, signs, cohort members, the smaller exponent and all 6 modes symbolic. Rounding kernel reduce128 (classes 0..5) and reduce192 (classes 0,1,24 + 2 seeded of 0..24): normal region, flush region, 9 of 37 subnormal depths, overflow region. Loop bound 600.',
+        'thorough': 'every exponent gap -74..74 for Add and Sub, both far regions; reduce128 and reduce192 contracts for every class and every subnormal depth 1..37 / overflow excess.',
+    },
+    'outside': 'nothing within the quantifier is excluded in the thorough tier; the quick tier samples gaps and kernel classes (boundary ones always).',
+    'assumptions': ['assume-guarantee: callers are checked against the rounding kernel contract R; R itself is checked by vh_reduce_* under precondition P, and P is an obligation at every call site',
+                    'sticky flag t denotes an offset strictly between 0 and 1 unit of the kernel input; sound because P forces at least one dropped digit'],
+    'validate_per_harness': 3,
+}
+
+
+# ---------------------------------------------------------------- C04
+def c04_jobs(tier, seed):
+    jobs = []
+    for g in range(-36, 37):
+        jobs.append(('vh_c04_gap', [g]))
+    jobs.append(('vh_c04_far', [1]))
+    jobs.append(('vh_c04_far', [-1]))
+    for cd in range(4):
+        for co in range(4):
+            if cd or co:
+                jobs.append(('vh_c04_special', [cd, co]))
+    return jobs
+
+
+PROPS['C04'] = {
+    'jobs': c04_jobs,
+    'must_reach': ['C04:finite', 'C04:zeros', 'C04:nan', 'C04:inf'],
+    'bounds': {'all': 'every exponent gap -36..36 individually and both far regions |gap|>=36 (gap symbolic); per gap both full 128-bit patterns symbolic (all coefficients, cohort members, zeros of any exponent, both signs); all 15 special class pairs with symbolic sign/payload/garbage bits. Cmp, CmpAbs, Equal, Compare, Min, Max, IsZero, Sign and the CmpResult predicates.'},
+    'outside': 'antisymmetry/transitivity are corollaries of agreement with the exact order and are not separate queries',
+    'assumptions': [],
+    'validate_per_harness': 4,
+}
